@@ -486,3 +486,125 @@ Section UserEnvelope.
         end
     end.
 End UserEnvelope.
+
+(* ---------------------------------------------------------------------------------------- *)
+(* ledger transaction payloads (ledger_transaction.rs)                                      *)
+(* ---------------------------------------------------------------------------------------- *)
+(* RawLedgerTransaction (TransactionPayloadKind::LedgerTransaction) →
+   PreparedLedgerTransaction::prepare_from_transaction_enum:
+     read_header(EnumWithValueKind { discriminator: Ledger }, 1)
+     PreparedLedgerTransactionInner::prepare_from_value:
+       read_enum_header  (value kind Enum, any discriminator, any size)
+       per arm: check_length(length, 1), then the nested transaction's prepare_from_value;
+       Genesis: check_length(length, 1), a second read_enum_header, Flash: check_length(length, 0),
+                Transaction: check_length(length, 1) + PreparedSystemTransactionV1
+       unknown discriminator → DecodeError::UnknownDiscriminator
+   then check_complete.  The nested transactions are abstract field decoders, as for user payloads. *)
+Definition D_LEDGER : N := 7.
+Inductive ledger_variant :=
+| LGenesisFlash | LGenesisTransaction | LUserV1 | LRoundUpdateV1 | LFlashV1 | LUserV2.
+Definition ledger_variant_code (v : ledger_variant) : N :=
+  match v with
+  | LGenesisFlash => 0 | LGenesisTransaction => 1 | LUserV1 => 2 | LRoundUpdateV1 => 3
+  | LFlashV1 => 4 | LUserV2 => 5
+  end.
+(* the envelope bytes in front of the nested transaction, fully determined by the variant *)
+Definition ledger_header (v : ledger_variant) : bytes :=
+  [MANIFEST_SBOR_V1_PAYLOAD_PREFIX; VK_ENUM; D_LEDGER; 1; VK_ENUM] ++
+  match v with
+  | LGenesisFlash => [0; 1; VK_ENUM; 0; 0]
+  | LGenesisTransaction => [0; 1; VK_ENUM; 1; 1]
+  | LUserV1 => [1; 1]
+  | LRoundUpdateV1 => [2; 1]
+  | LFlashV1 => [3; 1]
+  | LUserV2 => [4; 1]
+  end.
+
+(* TransactionDecoder::read_enum_header: value kind Enum, discriminator, size *)
+Definition read_any_enum_header (bs : bytes) : result (N * N * bytes) :=
+  match bs with
+  | [] => Err EBufferUnderflow
+  | vk :: r1 =>
+      if negb (vk =? VK_ENUM) then Err (EBadValueKind vk) else
+      match r1 with
+      | [] => Err EBufferUnderflow
+      | d :: r2 =>
+          match read_size r2 with
+          | Err e => Err e
+          | Ok (n, r3) => Ok (d, n, r3)
+          end
+      end
+  end.
+(* ledger_transaction.rs check_length *)
+Definition check_length {B : Type} (actual expected : N) (k : result B) : result B :=
+  if actual =? expected then k else Err (EUnexpectedSize actual).
+
+Section LedgerEnvelope.
+  Variable A : Type.
+  (* the nested transaction's prepare_from_value (value kind + fields), per variant *)
+  Variable decode_inner : ledger_variant -> bytes -> result (A * bytes).
+
+  Definition nested (v : ledger_variant) (bs : bytes) : result (ledger_variant * option A * bytes) :=
+    match decode_inner v bs with
+    | Err e => Err e
+    | Ok (a, rest) => Ok (v, Some a, rest)
+    end.
+  (* PreparedLedgerTransactionInner::prepare_from_value; UnknownDiscriminator is EUnknownDiscriminator *)
+  Definition prepare_ledger_inner (unknown : N -> perr) (bs : bytes)
+    : result (ledger_variant * option A * bytes) :=
+    match read_any_enum_header bs with
+    | Err e => Err e
+    | Ok (d, n, r) =>
+      if d =? 0 then
+        check_length n 1
+          (match read_any_enum_header r with
+           | Err e => Err e
+           | Ok (g, m, r2) =>
+             if g =? 0 then check_length m 0 (Ok (LGenesisFlash, None, r2))
+             else if g =? 1 then check_length m 1 (nested LGenesisTransaction r2)
+             else Err (unknown g)
+           end)
+      else if d =? 1 then check_length n 1 (nested LUserV1 r)
+      else if d =? 2 then check_length n 1 (nested LRoundUpdateV1 r)
+      else if d =? 3 then check_length n 1 (nested LFlashV1 r)
+      else if d =? 4 then check_length n 1 (nested LUserV2 r)
+      else Err (unknown d)
+    end.
+  (* PreparedLedgerTransaction::prepare *)
+  Definition prepare_ledger (unknown : N -> perr) (s : settings) (payload : bytes)
+    : result (ledger_variant * option A) :=
+    if negb (check_len s LedgerTransaction (N.of_nat (length payload))) then Err ETransactionTooLarge else
+    match payload with
+    | [] => Err EBufferUnderflow
+    | p :: rest =>
+        if negb (p =? MANIFEST_SBOR_V1_PAYLOAD_PREFIX) then Err (EUnexpectedPayloadPrefix p) else
+        match read_enum_header D_LEDGER 1 rest with
+        | Err e => Err e
+        | Ok body =>
+            match prepare_ledger_inner unknown body with
+            | Err e => Err e
+            | Ok (v, a, trailing) =>
+                match trailing with
+                | [] => Ok (v, a)
+                | _ => Err (EExtraTrailingBytes (N.of_nat (length trailing)))
+                end
+            end
+        end
+    end.
+End LedgerEnvelope.
+(* DecodeError::UnknownDiscriminator: kept apart from the abstract decoder's error *)
+Definition EUnknownDiscriminator (d : N) : perr := EUnexpectedTransactionDiscriminator (Some (256 + d)).
+
+(* LedgerTransactionHash::for_kind: the hashed bytes.  LedgerTransactionKind::discriminator_for_hash:
+   Genesis 0, User 1 (V1 and V2 alike), Validator 2, ProtocolUpdate 3 *)
+Definition ledger_kind_for_hash (v : ledger_variant) : N :=
+  match v with
+  | LGenesisFlash | LGenesisTransaction => 0
+  | LUserV1 | LUserV2 => 1
+  | LRoundUpdateV1 => 2
+  | LFlashV1 => 3
+  end.
+Definition ledger_hash_input (kind : N) (inner_hash : bytes) : bytes :=
+  [TRANSACTION_HASHABLE_PAYLOAD_PREFIX; D_LEDGER; kind] ++ inner_hash.
+Definition ledger_hash (H : bytes -> bytes) (v : ledger_variant) (inner_hash : bytes) : bytes :=
+  H (ledger_hash_input (ledger_kind_for_hash v) inner_hash).
